@@ -555,6 +555,27 @@ where
     }
 }
 
+/// Verification hooks: read-only access to the bucket counters for the out-of-tree Kani harness
+/// crates under `/verif`. `cfg(kani)` is only ever set by `cargo kani`.
+#[cfg(kani)]
+#[doc(hidden)]
+#[allow(missing_docs)]
+pub mod verif_hooks {
+    use super::*;
+
+    pub fn exponential_buckets(s: &ExponentialAggregationStrategy) -> &[u64] {
+        s.inner.as_slice()
+    }
+
+    pub fn scale_up(v: f64) -> f64 {
+        super::scale_up(v)
+    }
+
+    pub fn scale_down(v: f64) -> f64 {
+        super::scale_down(v)
+    }
+}
+
 #[cfg(test)]
 mod tests {
     use assert2::check;
